@@ -190,7 +190,9 @@ def convert_to_utf8(
         xml_encoding_match = RE_XML_PI_ENCODING.match(tempdata)
 
     if xml_encoding_match:
-        xml_encoding = xml_encoding_match.groups()[0].decode("utf-8").lower()
+        xml_encoding = (
+            xml_encoding_match.groups()[0].decode("utf-8", "replace").lower()
+        )
         # Normalize the xml_encoding if necessary.
         if bom_encoding and (
             xml_encoding
@@ -300,7 +302,9 @@ def convert_to_utf8(
         tried_encodings.append(proposed_encoding)
         try:
             text = data.decode(proposed_encoding)
-        except (UnicodeDecodeError, LookupError):
+        except (LookupError, ValueError):
+            # UnicodeError is a ValueError; some codecs raise it directly,
+            # and a NUL in the codec name is a plain ValueError.
             continue
 
         known_encoding = True
